@@ -308,7 +308,13 @@ func c06LRU(c *core.Ctx, r *core.Reporter) {
 		}
 		okLoop := false
 		var loopPos token.Pos
-		for h := range core.Loops(fn) {
+		loops := map[*ssa.BasicBlock]bool{}
+		for _, g := range c.Region(fn) { // the loop may have been moved into a helper called from store
+			for h := range core.Loops(g) {
+				loops[h] = true
+			}
+		}
+		for h := range loops {
 			// header condition: Len() > opts.MaxEntries
 			iff, ok := h.Instrs[len(h.Instrs)-1].(*ssa.If)
 			if !ok {
@@ -323,9 +329,11 @@ func c06LRU(c *core.Ctx, r *core.Reporter) {
 				continue
 			}
 			if u, ok := bo.Y.(*ssa.UnOp); ok {
-				if f := core.FieldOf(u.X); f != nil && core.N(f) == "MaxEntries" && ins != nil && ins.Block().Dominates(h) {
-					okLoop = true
-					loopPos = iff.Pos()
+				if f := core.FieldOf(u.X); f != nil && core.N(f) == "MaxEntries" && ins != nil {
+					if at := c.Anchor(fn, iff); at != nil && core.InstrDominates(ins, at) {
+						okLoop = true
+						loopPos = iff.Pos()
+					}
 				}
 			}
 		}
@@ -359,139 +367,136 @@ func c06LRU(c *core.Ctx, r *core.Reporter) {
 }
 
 func c06PerCall(c *core.Ctx, r *core.Reporter) {
-	p, fd := c.FindDecl("", "PlanCache.Get")
-	if fd == nil {
-		r.Unknown("PlanCache.Get", token.NoPos, "not found")
+	get := c.Func("", "PlanCache.Get")
+	norm := c.Func("", "normalizeDocument")
+	store := c.Func("", "PlanCache.store")
+	lookup := c.Func("", "PlanCache.lookup")
+	if get == nil || norm == nil || store == nil || lookup == nil {
+		r.Unknown("PlanCache.Get", token.NoPos, "Get / normalizeDocument / store / lookup not found")
 		return
 	}
-	info := p.TypesInfo
-	// synthArgs variable: 2nd result of normalizeDocument
-	var synth types.Object
-	ast.Inspect(fd.Body, func(n ast.Node) bool {
-		as, ok := n.(*ast.AssignStmt)
-		if !ok || len(as.Rhs) != 1 || len(as.Lhs) < 2 {
-			return true
+	// this call's synthetic arguments: the map-typed result of normalizeDocument
+	var synth ssa.Value
+	for _, site := range core.CallsTo(get, norm, false) {
+		call, _ := site.(*ssa.Call)
+		if call == nil {
+			continue
 		}
-		if call, ok := as.Rhs[0].(*ast.CallExpr); ok {
-			if f := core.CalleeObj(info, call); f != nil && core.N(f) == "normalizeDocument" {
-				synth = core.ObjOf(info, as.Lhs[1])
+		for _, ref := range *call.Referrers() {
+			if ex, ok := ref.(*ssa.Extract); ok {
+				if _, isMap := ex.Type().Underlying().(*types.Map); isMap {
+					synth = ex
+				}
 			}
 		}
-		return true
-	})
+	}
 	if synth == nil {
-		r.Unknown("PlanCache.Get/synthArgs", fd.Pos(), "result of normalizeDocument not found")
+		r.Unknown("PlanCache.Get/synthArgs", get.Pos(), "result of normalizeDocument not found")
 		return
 	}
-	usesSynth := func(n ast.Node) bool {
-		found := false
-		ast.Inspect(n, func(x ast.Node) bool {
-			if id, ok := x.(*ast.Ident); ok && info.Uses[id] == synth {
-				found = true
-			}
-			return true
-		})
-		return found
+	// stores of it into the SynthArgs field of a local PlanResult
+	type attach struct {
+		st    *ssa.Store
+		owner ssa.Value // the local PlanResult cell
 	}
-	// (i) no argument of c.store mentions synthArgs, directly or through a variable assigned from it
-	tainted := map[types.Object]bool{synth: true}
-	for pass := 0; pass < 3; pass++ {
-		ast.Inspect(fd.Body, func(n ast.Node) bool {
-			as, ok := n.(*ast.AssignStmt)
-			if !ok {
-				return true
-			}
-			for i, rhs := range as.Rhs {
-				if i >= len(as.Lhs) {
-					break
-				}
-				hit := false
-				ast.Inspect(rhs, func(x ast.Node) bool {
-					if id, ok := x.(*ast.Ident); ok && tainted[info.Uses[id]] {
-						hit = true
-					}
-					return true
-				})
-				if hit {
-					// pr.SynthArgs = synthArgs taints pr
-					lhs := as.Lhs[i]
-					if se, ok := lhs.(*ast.SelectorExpr); ok {
-						lhs = se.X
-					}
-					if o := core.ObjOf(info, lhs); o != nil {
-						tainted[o] = true
-					}
-				}
-			}
-			return true
-		})
-	}
-	nStore := 0
-	ast.Inspect(fd.Body, func(n ast.Node) bool {
-		call, ok := n.(*ast.CallExpr)
+	var attaches []attach
+	core.Instrs(get, func(in ssa.Instruction) {
+		st, ok := in.(*ssa.Store)
 		if !ok {
-			return true
+			return
 		}
-		f := core.CalleeObj(info, call)
-		if f == nil || core.FuncFullName(f) != "PlanCache.store" {
-			return true
+		fa, ok := st.Addr.(*ssa.FieldAddr)
+		if !ok {
+			return
 		}
+		if f := core.FieldOf(fa); f == nil || core.N(f) != "SynthArgs" {
+			return
+		}
+		for _, o := range core.Origins(st.Val) {
+			if o == synth {
+				attaches = append(attaches, attach{st, fa.X})
+			}
+		}
+		if st.Val == synth {
+			attaches = append(attaches, attach{st, fa.X})
+		}
+	})
+	reaches := func(a, b ssa.Instruction) bool { // a may execute before b
+		if a.Block() == b.Block() {
+			return core.InstrIndex(a) < core.InstrIndex(b)
+		}
+		return core.Reachable(a.Block())[b.Block()]
+	}
+	cellOf := func(v ssa.Value) ssa.Value { // the local cell a by-value PlanResult was loaded from
+		if u, ok := v.(*ssa.UnOp); ok && u.Op == token.MUL {
+			return u.X
+		}
+		return nil
+	}
+	// (i) nothing handed to store carries this call's synthetic arguments
+	nStore := 0
+	for _, site := range core.CallsTo(get, store, false) {
 		nStore++
 		bad := false
-		for _, a := range call.Args {
-			ast.Inspect(a, func(x ast.Node) bool {
-				if id, ok := x.(*ast.Ident); ok && tainted[info.Uses[id]] {
-					// a variable tainted only after this call does not count
-					if o := info.Uses[id]; o != synth {
-						bad = bad || taintedBefore(info, fd, o, tainted, call.Pos())
-					} else {
-						bad = true
-					}
+		for _, a := range site.Common().Args {
+			if core.TypeName(a.Type()) != "PlanResult" {
+				continue
+			}
+			cell := cellOf(a)
+			for _, at := range attaches {
+				if cell != nil && at.owner == cell && reaches(at.st, site) {
+					bad = true
 				}
-				return true
-			})
+			}
 		}
-		r.Check(!bad, fmt.Sprintf("PlanCache.Get/store#%d", nStore), call.Pos(),
+		r.Check(!bad, fmt.Sprintf("PlanCache.Get/store#%d", nStore), site.Pos(),
 			"the stored PlanResult carries no per-call synthetic arguments",
 			"this call stores a PlanResult that carries this call's synthetic arguments: later requests with other literals are handed these values")
-		return true
-	})
-	// (ii) hit path re-attaches this call's synthArgs; final return carries them
-	reattached, finalRet := false, false
-	ast.Inspect(fd.Body, func(n ast.Node) bool {
-		switch x := n.(type) {
-		case *ast.IfStmt:
-			if as, ok := x.Init.(*ast.AssignStmt); ok && len(as.Rhs) == 1 {
-				if call, ok := as.Rhs[0].(*ast.CallExpr); ok {
-					if f := core.CalleeObj(info, call); f != nil && core.FuncFullName(f) == "PlanCache.lookup" && usesSynth(x.Body) {
-						for _, st := range x.Body.List {
-							if a2, ok := st.(*ast.AssignStmt); ok && len(a2.Lhs) == 1 {
-								if se, ok := a2.Lhs[0].(*ast.SelectorExpr); ok && se.Sel.Name == "SynthArgs" && core.ObjOf(info, a2.Rhs[0]) == synth {
-									reattached = true
-								}
-							}
-						}
-					}
-				}
+	}
+	if nStore == 0 {
+		r.Unknown("PlanCache.Get/store", get.Pos(), "Get never stores")
+	}
+	// (ii) the hit path and the planned miss path both hand back this call's synthetic arguments
+	var hit *ssa.BasicBlock
+	for _, site := range core.CallsTo(get, lookup, false) {
+		call, _ := site.(*ssa.Call)
+		if call == nil {
+			continue
+		}
+		for _, ref := range *call.Referrers() {
+			ex, ok := ref.(*ssa.Extract)
+			if !ok || ex.Index != 1 {
+				continue
 			}
-		case *ast.ReturnStmt:
-			if len(x.Results) == 1 {
-				if cl, ok := x.Results[0].(*ast.CompositeLit); ok {
-					for _, el := range cl.Elts {
-						if kv, ok := el.(*ast.KeyValueExpr); ok {
-							if id, ok := kv.Key.(*ast.Ident); ok && id.Name == "SynthArgs" && core.ObjOf(info, kv.Value) == synth {
-								finalRet = true
-							}
-						}
-					}
+			for _, u := range *ex.Referrers() {
+				if iff, ok := u.(*ssa.If); ok {
+					hit = iff.Block().Succs[0]
 				}
 			}
 		}
-		return true
-	})
-	r.Check(reattached, "PlanCache.Get/hit-synthArgs", fd.Pos(), "the hit path hands back this call's own synthetic arguments",
+	}
+	returned := func(at attach) (onHit, onMiss bool) {
+		for _, ret := range core.Returns(get) {
+			if len(ret.Results) != 1 || cellOf(core.RetVal(ret, 0)) != at.owner || !reaches(at.st, ret) {
+				continue
+			}
+			if hit != nil && hit.Dominates(ret.Block()) {
+				onHit = true
+			} else {
+				onMiss = true
+			}
+		}
+		return
+	}
+	reattached, finalRet := false, false
+	for _, at := range attaches {
+		h, m := returned(at)
+		reattached = reattached || h
+		finalRet = finalRet || m
+	}
+	r.Check(reattached, "PlanCache.Get/hit-synthArgs", get.Pos(), "the hit path hands back this call's own synthetic arguments",
 		"on a normalised cache hit the result's SynthArgs are not replaced by this call's values: the request executes with missing or foreign literal values")
-	r.Check(finalRet, "PlanCache.Get/miss-synthArgs", fd.Pos(), "the miss path returns this call's synthetic arguments with the new plan",
+	r.Check(finalRet, "PlanCache.Get/miss-synthArgs", get.Pos(), "the miss path returns this call's synthetic arguments with the new plan",
 		"the miss path does not return this call's synthetic arguments")
 
 	// (iii) plan-owned static args never alias ResolveParams.Args
